@@ -1,6 +1,7 @@
 package harness
 
 import (
+	"time"
 	"encoding/json"
 	"fmt"
 	"strings"
@@ -33,7 +34,7 @@ type LexCase struct {
 	Sched   uint64 `json:"sched"`
 	Preempt int    `json:"preempt"`
 	PMean   int    `json:"pmean"`
-	Pace    int    `json:"pace"` // consumer: 0 never yields between receives, 1 always, 2 sometimes (tape)
+	Pace    int    `json:"pace"` // consumer: 0 never yields between receives, 1 always, 2 sometimes (tape), 3 sometimes pauses for seconds of simulated time
 }
 
 type lexHarness struct{}
@@ -47,7 +48,7 @@ var lexCaps = []int{0, 0, 1, 2, 3, 8, 64}
 
 func (h *lexHarness) Gen(r *Rand, tier string, clean bool) any {
 	rc := (&robustHarness{}).Gen(r, tier, clean).(*RobustCase)
-	c := &LexCase{Text: rc.Text, Origin: rc.Origin, Cap: lexCaps[r.Intn(len(lexCaps))], Sched: r.U64(), Preempt: r.Intn(6), PMean: []int{5, 20, 60}[r.Intn(3)], Pace: r.Intn(3)}
+	c := &LexCase{Text: rc.Text, Origin: rc.Origin, Cap: lexCaps[r.Intn(len(lexCaps))], Sched: r.U64(), Preempt: r.Intn(6), PMean: []int{5, 20, 60}[r.Intn(3)], Pace: r.Intn(4)}
 	if r.Chance(0.08) {
 		// the printed form of one value, alone: it has to come out as one token carrying exactly that text
 		var txt string
@@ -124,7 +125,7 @@ func lexOnce(t *testing.T, text string, capacity int, sched uint64, preempt, pme
 		tape = sim.ReplayTape(nil)
 	}
 	sim.SetMapSeed(sched | 1)
-	cfg := sim.Config{Preempt: preempt, PreemptMean: pmean, MaxSteps: 2000000, Trace: traceOn}
+	cfg := sim.Config{Preempt: preempt, PreemptMean: pmean, MaxSteps: 2000000, Trace: traceOn, TimeHorizon: 20 * time.Second}
 	lr.res, lr.bubble = simRun(t, tape, cfg, func(r *sim.Runtime) {
 		r.Client("consumer", func() {
 			defer func() {
@@ -133,6 +134,7 @@ func lexOnce(t *testing.T, text string, capacity int, sched uint64, preempt, pme
 				}
 			}()
 			c := lexer.New(text, capacity)
+			pauses := 0
 			for tok := range c {
 				lr.toks = append(lr.toks, tok)
 				switch pace {
@@ -142,6 +144,13 @@ func lexOnce(t *testing.T, text string, capacity int, sched uint64, preempt, pme
 					if tp := sim.ActiveTape(); tp != nil && tp.Draw(3) == 0 {
 						sim.Point(-30)
 					}
+				case 3:
+					// a consumer that is busy elsewhere for a while (simulated time: the bubble's clock)
+					if tp := sim.ActiveTape(); tp != nil && tp.Draw(4) == 0 && pauses < 3 {
+						pauses++
+						time.Sleep(3 * time.Second)
+					}
+					sim.Point(-30)
 				}
 			}
 			lr.done = true
@@ -259,7 +268,7 @@ func (h *lexHarness) Run(t *testing.T, ci any) *Outcome {
 	for i := 0; i < 3; i++ {
 		capacity, sched, pre, pace := c.Cap, c.Sched, c.Preempt, c.Pace
 		if i > 0 {
-			capacity, sched, pre, pace = lexCaps[vr.Intn(len(lexCaps))], vr.U64(), vr.Intn(6), vr.Intn(3)
+			capacity, sched, pre, pace = lexCaps[vr.Intn(len(lexCaps))], vr.U64(), vr.Intn(6), vr.Intn(4)
 		}
 		lr := lexOnce(t, c.Text, capacity, sched, pre, c.PMean, pace, false)
 		what := fmt.Sprintf("capacity %d, schedule %d, %d preemptions, consumer pace %d", capacity, sched, pre, pace)
